@@ -130,7 +130,8 @@ def dfdt(rc: RuleCtx, rule_range: Optional[str], rule_crit: Optional[str], rule_
     kname = rets[0].value.id
     knee_new = outb.env.get(kname)
     x = pts.items[0]
-    grad = env.get("gradient")
+    grads = [v for v in env.values() if isinstance(v, Rat) and single_atom(v) is not None and single_atom(v).name == "dep:uts.gradient.cfd"]
+    grad = grads[0] if grads else None
     # identify cutoff: the symbol used to slice the gradient
     cut = None
     if isinstance(knee_new, Rat):
@@ -270,7 +271,13 @@ def lmethod(rc: RuleCtx, rule_range: Optional[str], rule_crit: Optional[str], ru
     env = {"x": x, "y": y, "fit": ev.symbol("fit"), "cost": ev.symbol("cost")}
     fr = Frame(ev, fg, 0)
     fr.block(pre, env, TRUE)
-    idx0 = env.get("index")
+    # roles: the split index is the first component of the returned tuple; the running error is the variable
+    # the candidate error is compared with; the total length is x[-1] - x[0]
+    rets_ = [st for st in post if isinstance(st, ast.Return)]
+    if len(rets_) != 1 or not isinstance(rets_[0].value, ast.Tuple) or not isinstance(rets_[0].value.elts[0], ast.Name):
+        raise AnalysisError("lmethod.get_knee: expected `return (index, ...)`")
+    iname = rets_[0].value.elts[0].id
+    idx0 = env.get(iname)
     ra = range_args(loop)
     lo = fr.expr(ra[0], env) if ra and len(ra) == 2 else None
     hi = fr.expr(ra[1], env) if ra and len(ra) == 2 else None
@@ -279,31 +286,37 @@ def lmethod(rc: RuleCtx, rule_range: Optional[str], rule_crit: Optional[str], ru
     i = ev.symbol(loop.target.id)
     benv = dict(env)
     benv[loop.target.id] = i
-    for nme in stored_names(loop):
-        if nme in env:
-            benv[nme] = ev.symbol(nme)
+    carried_names = [nme for nme in stored_names(loop) if nme in env]
+    for nme in carried_names:
+        benv[nme] = ev.symbol(nme)
     out = ev.eval_loop_body(fg, loop, benv)
-    idx_new = out.env.get("index")
-    err_new = out.env.get("error")
-    cur = anf.opaque("item", anf.opaque("call:lmethod.compute_error", x, y, i, env["length"] if isinstance(env.get("length"), Rat) else sym("length"),
+    idx_new = out.env.get(iname)
+    lengths = [v for v in env.values() if isinstance(v, Rat) and v.equals(_at(x, C(-1)) - _at(x, C(0)))]
+    length_v = lengths[0] if lengths else sym("length")
+    cur = anf.opaque("item", anf.opaque("call:lmethod.compute_error", x, y, i, length_v,
                                         ev.to_rat(env["fit"]), ev.to_rat(env["cost"]), array=True, extra=("x", "y", "index", "length", "fit", "cost")), C(0), array=False)
-    better_strict = canon_sign(cur - sym("error"), OPS["<"])
-    better_weak = canon_sign(cur - sym("error"), OPS["<="])
+    # the running error: the carried variable whose new value is `cur` on the improving path
+    enames = [nme for nme in carried_names if nme != iname and any(isinstance(v, Rat) and v.equals(cur) for _g, v in cases_of(out.env.get(nme)))]
+    ename = enames[0] if enames else None
+    err_new = out.env.get(ename) if ename else None
     upd_ok = False
-    for better in (better_strict, better_weak):
-        want_idx = mk_pw([(better, i), (g_not(better), sym("index"))])
-        want_err = mk_pw([(better, cur), (g_not(better), sym("error"))])
-        if veq(idx_new, want_idx) and veq(err_new, want_err):
-            upd_ok = True
+    if ename:
+        better_strict = canon_sign(cur - sym(ename), OPS["<"])
+        better_weak = canon_sign(cur - sym(ename), OPS["<="])
+        for better in (better_strict, better_weak):
+            want_idx = mk_pw([(better, i), (g_not(better), sym(iname))])
+            want_err = mk_pw([(better, cur), (g_not(better), sym(ename))])
+            if veq(idx_new, want_idx) and veq(err_new, want_err):
+                upd_ok = True
     # return value: first component is index
     fr2 = Frame(ev, fg, 0)
     penv = dict(env)
-    penv["index"] = sym("index")
+    penv[iname] = sym(iname)
     fr2.block(post, penv, TRUE)
     ret_ok = len(fr2.returns) == 1 and isinstance(fr2.returns[0][1], Vec) and isinstance(fr2.returns[0][1].items[0], Rat) \
-        and fr2.returns[0][1].items[0].equals(sym("index"))
+        and fr2.returns[0][1].items[0].equals(sym(iname))
     # initial error is the error at index 2
-    err0 = env.get("error")
+    err0 = env.get(ename) if ename else None
     init_ok = isinstance(err0, Rat) and any(a.name == "call:lmethod.compute_error" for a in err0.all_atoms())
     if rule_range:
         if cand_ok and ret_ok and upd_ok:
